@@ -85,10 +85,19 @@ Definition s_mres (m : mres) : sexp :=
   | MYes ch ps => Lst [Num 1; s_chain ch; s_params ps]
   end.
 
+Definition has_flag (c : sexp) (bit : Z) : bool :=
+  negb (Z.eqb (Z.land (as_Z (nth_s 4 c)) bit) 0).
+
+(** flags: 32 = into_paths(None) (behaves like the empty map), 64 = the map is collected
+    (FromIterator: duplicate names kept, the first one is found), otherwise inserted one by
+    one (a later insert replaces); 128 = reached through RouteListing::into_static_paths
+    (same function) *)
 Definition run_C14_build (c : sexp) : sexp :=
   let base := as_opt as_bytes (nth_s 1 c) in
   let rs := map (as_route 64) (as_list (nth_s 2 c)) in
-  let pm := as_pmap (nth_s 3 c) in
+  let pm := if has_flag c 32 then []
+            else if has_flag c 64 then as_pmap (nth_s 3 c)
+            else pm_of_inserts (as_pmap (nth_s 3 c)) in
   let flat := gen_routes rs in
   let build (segs : list pseg) : sexp :=
     match into_paths (registered base segs) pm with
@@ -100,9 +109,18 @@ Definition run_C14_build (c : sexp) : sexp :=
         Lst (map (fun r => Lst [build r; Lst (map (fun e => Lst [s_flat e; build e]) (expand_optionals r))])
                  flat) ].
 
+(** op 3: PossibleRouteMatch::test on a segment value; is_complete = rem_ok remaining *)
+Definition run_C14_test (c : sexp) : sexp :=
+  match seg_test (as_seg 64 (nth_s 1 c)) (as_bytes (nth_s 2 c)) with
+  | TNone => Lst []
+  | TPanic => Lst [Num (-1)]
+  | TSome m r ps => Lst [Num 1; sbytes m; sbytes r; s_params ps; sbool (rem_ok r)]
+  end.
+
 Definition run_C14 (c : sexp) : sexp :=
   match as_Z (nth_s 0 c) with
   | 1%Z => run_C14_ref c
   | 2%Z => run_C14_build c
+  | 3%Z => run_C14_test c
   | _ => run_C14_main c
   end.
